@@ -524,4 +524,53 @@ inductive LoopId where
 
 def stopperGuards : List LoopId := [.main, .idleGate, .idlePoll]
 
+/-! ### What the property calls an essential change, event by event (finding C10-F3)
+
+`resetsIdle` (the code) also fires on events that are NOT essential changes: whenever the essence differs from
+what is stored as last handled — i.e. on every event while a change is not handled yet, and on every event at all
+when nothing is stored (operators without change-detecting handlers). `isEssential` is the event-level reading of
+`essentialTimes`: the essence differs from the previously processed one; on the first event of the memory, from
+the last-handled one (or nothing is stored). -/
+def isEssential (lastHandled seen : Option Nat) (new : Nat) : Bool :=
+  match seen with
+  | none => lastHandled != some new
+  | some s => s != new
+
+/-- every later event shows the same essence as `e0` and carries it as last handled: nothing changes, nothing is pending -/
+def Settled (e0 : Ev) (es : List Ev) : Prop := ∀ e ∈ es, e.ess = e0.ess ∧ e.lastHandled = some e0.ess
+
+/-! ### How a timer task ends (`daemons._runner` around `_timer`; finding C10-F4)
+
+The loop of `_timer` is left by the stopper (a reason is recorded by whoever set it), by `break` (one-shot), or by
+an exception: the handler's own errors are outcomes of `execute_handlers_once`, so in the loop body only
+`application.patch_and_check` (the API client, after its own retries) can raise. `_runner`'s `finally`:
+
+    if stopper.reason is None: memory.forever_stopped.add(handler.id)
+
+and `spawn_daemons` is given `get_handlers(excluded=forever_stopped)`. -/
+inductive Exit where
+  | stopped     -- asked to stop (filters mismatch, deletion, pause, exit): a reason is recorded, however the task ends afterwards
+  | returned    -- `break`: neither interval nor idle; nobody asked
+  | raised      -- an exception out of the post-run patch; nobody asked
+  deriving DecidableEq, Repr
+
+/-- the fact `_runner`'s `finally` reads -/
+structure RunnerAtoms where
+  reasonIsNone : Bool     -- `stopper.reason is None`
+  deriving DecidableEq, Repr
+
+def runnerMarksForever (a : RunnerAtoms) : Bool := a.reasonIsNone
+
+/-- nobody sets a reason when the task ends by itself -/
+def Exit.reasonIsNone : Exit → Bool
+  | .stopped => false
+  | .returned => true
+  | .raised => true
+
+/-- `handler.id ∈ memory.forever_stopped` after the task has ended -/
+def foreverAfter (already : Bool) (e : Exit) : Bool := already || runnerMarksForever { reasonIsNone := e.reasonIsNone }
+
+/-- a later event of the object may spawn the timer again -/
+def respawnable (forever : Bool) : Bool := !forever
+
 end Kopf.C10
